@@ -510,3 +510,164 @@ Lemma do_act_Q a s pre s' : do_act a s = (pre, s') -> match a with AKillAsync _ 
 Proof.
   intros H SP. destruct a; try contradiction; clear SP; revert H; unfold do_act; repeat dest_match; passQ.
 Qed.
+
+(* ------------------------------------------------------------------ *)
+(** * The handle-level passes *)
+
+Definition reqact (a : act) : bool :=
+  match a with AStop | AFail _ | AKill _ _ | AKillAsync _ _ => true | _ => false end.
+
+Definition specialK (m : mop) : bool :=
+  match m with
+  | MActs (a :: _) => reqact a
+  | MEndBody _ _ | MRunItem _ | MDropRef _ | MRetInvoke _ _ | MValDrop _ | MTerminate _ _ | MLeaks => true
+  | _ => false
+  end.
+
+Definition neutralK (s : st) (pre : list mop) (s' : st) : Prop :=
+  evs_in pbK s s' /\ nmono s s' /\ existsb is_endb pre = false /\ existsb dly pre = false /\ dstep s s'.
+
+Lemma handle_K m s pre s' : handle m s = (pre, s') -> specialK m = false -> neutralK s pre s'.
+Proof.
+  unfold neutralK. intros H SP. destruct m; try discriminate SP; cbn [handle] in H.
+  - revert H. unfold do_top. destruct o; repeat dest_match; passK.
+  - destruct l as [|a l]; [revert H; passK|]. destruct (do_act a s) as [p s1] eqn:E. inversion H; subst.
+    assert (G : neutralK s p s').
+    { destruct (specialK_act a) eqn:SA; [|eapply do_act_K; eauto]. eapply do_act_K2; eauto.
+      destruct a; try discriminate SA; try discriminate SP; exact I. }
+    destruct G as (A & B & C & D & F). split; [exact A | split; [exact B | split; [|split; [|exact F]]]].
+    + rewrite endb_app, C. reflexivity.
+    + rewrite dly_app, D. reflexivity.
+  - revert H. destruct (frames s) as [|fr rest] eqn:FR; [passK|]. intros Q; inj_pairK Q.
+    split; [eiK | split; [apply nmono_same; reflexivity | split; [apply endb_drops | split; [apply dly_drops|]]]].
+    right; right. exists (fd fr). unfold dies. rewrite FR. reflexivity.
+  - revert H. unfold drop_item. destruct c as [u i kd caps q]. destruct kd; passK.
+  - revert H. passK.
+  - revert H. unfold drop_val. destruct v; repeat dest_match; passK.
+  - revert H. unfold drop_own. destruct logged; repeat dest_match; passK.
+  - revert H. passK.
+  - revert H. passK.
+  - revert H. passK.
+  - revert H. destruct (aget (actors s) a); passK.
+  - revert H. destruct (aget (actors s) a) as [y|] eqn:A; [destruct (a_state y) eqn:SA; [|passK|passK] | passK].
+    intros Q; inj_pairK Q. split; [eiK | split; [|split; [apply endb_runitems | split; [apply dly_runitems | left; reflexivity]]]].
+    intros b x H. rewrite aget_upd_emit. destruct (N.eqb a b) eqn:Q.
+    + apply N.eqb_eq in Q. subst b. rewrite A in H. inversion H; subst x. eexists. split; [reflexivity | left; reflexivity].
+    + exists x. auto.
+  - revert H. unfold fresh_stakker. passK.
+  - revert H. destruct idle; [destruct (idleq s)|]; passK.
+  - revert H. destruct (t >? now (set_mainq s [])).
+    + destruct (fire t _) as [fired s2] eqn:FI. unfold fire in FI. injection FI as ? ?; subst. destruct (ambiguous _); passK.
+    + passK.
+  - revert H. repeat dest_match; passK.
+  - revert H. repeat dest_match; passK.
+  - revert H. cbv zeta. destruct (ambiguous (timers s)); passK.
+  - revert H. repeat dest_match; passK.
+  - revert H. repeat dest_match; passK.
+  - revert H. passK.
+Qed.
+
+Definition ksub (s : st) (pre : list mop) (s' : st) : Prop :=
+  (forall ci, In ci (kl s') -> In ci (kl s)) /\ (forall ci, In (MRunItem ci) pre -> iskill ci = true -> In ci (kl s)).
+
+Lemma runm_notin pre ci : existsb is_runm pre = false -> ~ In (MRunItem ci) pre.
+Proof.
+  intros H IN. assert (existsb is_runm pre = true) by (apply existsb_exists; exists (MRunItem ci); auto). congruence.
+Qed.
+
+Lemma Qeq s pre s' : kl s' = kl s -> existsb is_runm pre = false -> ksub s pre s'.
+Proof. intros E R. split; [rewrite E; auto | intros ci IN; exfalso; eapply runm_notin; eauto]. Qed.
+
+Lemma runm_in l rest ci : In (MRunItem ci) (map MRunItem l ++ rest) -> existsb is_runm rest = false -> In ci l.
+Proof.
+  intros IN R. apply in_app_or in IN as [IN|IN]; [|exfalso; eapply runm_notin; eauto].
+  apply in_map_iff in IN as (c & E & IC). inversion E; subst. exact IC.
+Qed.
+
+Lemma kl_in s ci : In ci (mainq s) -> iskill ci = true -> In ci (kl s).
+Proof. intros A B. unfold kl. apply filter_In. auto. Qed.
+
+Lemma tagged_nokill q l ci : Forall (tagged q) l -> In ci l -> iskill ci = true -> False.
+Proof.
+  intros F IN K. rewrite Forall_forall in F. destruct (F _ IN) as [C _]. unfold ci_call, iskill in *. destruct (ci_kind ci); discriminate.
+Qed.
+
+Lemma state_drops_runm a sa s l s' : state_drops a sa s = (l, s') -> s' = s /\ existsb is_runm l = false.
+Proof.
+  unfold state_drops. destruct sa; intros Q; inversion Q; subst; split; auto.
+  - apply runm_dropitems.
+  - simpl. rewrite runm_app, runm_drops, runm_slab_drops. reflexivity.
+Qed.
+
+Lemma mainq_class_flags s : mainq (class_flags s) = mainq s.
+Proof.
+  unfold class_flags. generalize (class_flag (actors s)). intros f. generalize (actors s) as l. intros l. revert s.
+  induction l as [|p l IH]; simpl; intros s; auto. rewrite IH. unfold emit_opt. destruct (f p); reflexivity.
+Qed.
+
+Lemma kl_nil s s' : mainq s' = [] -> forall ci, In ci (kl s') -> In ci (kl s).
+Proof. intros E ci. unfold kl. rewrite E. simpl. contradiction. Qed.
+
+Lemma handle_Q m s pre s' : QTags s -> KS s -> handle m s = (pre, s') ->
+  match m with MActs (AKillAsync _ _ :: _) => False | _ => True end -> ksub s pre s'.
+Proof.
+  intros QT KS_ H SP. destruct m; cbn [handle] in H.
+  - revert H. unfold do_top. destruct o; repeat dest_match; intros Q; inj_pairK Q; apply Qeq; first [kl_rw; reflexivity | runm_tac].
+  - destruct l as [|a l]; [inversion H; subst; apply Qeq; reflexivity|]. destruct (do_act a s) as [p s1] eqn:E. inversion H; subst.
+    assert (SA : match a with AKillAsync _ _ => False | _ => True end) by (destruct a; auto).
+    destruct (do_act_Q _ _ _ _ E SA) as [A B]. apply Qeq; [exact A | rewrite runm_app, B; reflexivity].
+  - revert H. destruct (frames s) as [|fr rest] eqn:FR; intros Q; inj_pairK Q; apply Qeq; try reflexivity. apply runm_drops.
+  - revert H. destruct (frames s) as [|fr rest]; intros Q; inj_pairK Q; apply Qeq; try reflexivity.
+    rewrite runm_app, runm_drops. destruct f; try destruct (f_die fr); try destruct ready; reflexivity.
+  - revert H. unfold run_item. destruct c as [u i kd caps q]. destruct kd; repeat dest_match; intros Q; inj_pairK Q; apply Qeq; first [kl_rw; reflexivity | runm_tac].
+  - revert H. unfold drop_item. destruct c as [u i kd caps q]. destruct kd; intros Q; inj_pairK Q; apply Qeq; first [kl_rw; reflexivity | runm_tac].
+  - inversion H; subst. apply Qeq; [reflexivity | apply runm_drops].
+  - revert H. unfold drop_val. destruct v; repeat dest_match; intros Q; inj_pairK Q; apply Qeq; first [kl_rw; reflexivity | runm_tac].
+  - revert H. unfold drop_own. destruct logged; repeat dest_match; intros Q; inj_pairK Q; apply Qeq; first [kl_rw; reflexivity | runm_tac].
+  - revert H. unfold drop_ref. destruct (aget (actors s) a) as [y|] eqn:A; [|intros Q; inj_pairK Q; apply Qeq; reflexivity].
+    destruct (a_freed y); [intros Q; inj_pairK Q; apply Qeq; reflexivity|].
+    destruct (minrc_drop (a_rc y)) as [[v z]|]; [|intros Q; inj_pairK Q; apply Qeq; reflexivity].
+    destruct z; [|intros Q; inj_pairK Q; apply Qeq; reflexivity].
+    destruct (state_drops a (a_state y) _) as [dl s2] eqn:SD. destruct (state_drops_runm _ _ _ _ _ SD) as [-> IS].
+    intros Q; inj_pairK Q. apply Qeq; [reflexivity|]. rewrite runm_app, IS. destruct (a_notify y); reflexivity.
+  - revert H. unfold ret_invoke. destruct r as [rid k]. destruct k; repeat dest_match; intros Q; inj_pairK Q; apply Qeq; first [kl_rw; reflexivity | runm_tac].
+  - inversion H; subst. apply Qeq; reflexivity.
+  - inversion H; subst. apply Qeq; reflexivity.
+  - inversion H; subst. apply Qeq; reflexivity.
+  - inversion H; subst. apply Qeq; reflexivity.
+  - revert H. unfold terminate. destruct (aget (actors s) a) as [y|] eqn:A; [|intros Q; inj_pairK Q; apply Qeq; reflexivity].
+    destruct (state_drops a (a_state y) _) as [dl s2] eqn:SD. destruct (state_drops_runm _ _ _ _ _ SD) as [-> IS].
+    destruct (a_notify y); intros Q; inj_pairK Q; (apply Qeq; [destruct (a_freed y); reflexivity|]); [rewrite runm_app, IS; reflexivity | exact IS].
+  - revert H. destruct (aget (actors s) a); intros Q; inj_pairK Q; apply Qeq; first [kl_rw; reflexivity | runm_tac].
+  - revert H. destruct (aget (actors s) a) as [y|] eqn:A; [destruct (a_state y) eqn:SA|]; intros Q; inj_pairK Q; try (apply Qeq; reflexivity).
+    split; [auto|]. intros ci IN K. exfalso. apply in_map_iff in IN as (c & E & IC). inversion E; subst c.
+    destruct (ks_act _ KS_ _ _ A) as (_ & _ & _ & _ & HK). unfold held_of in HK. rewrite SA in HK. rewrite Forall_forall in HK.
+    unfold iskill in K. destruct (HK _ IC) as [(b & arg & E1 & _)|(key & E1 & _)]; rewrite E1 in K; discriminate.
+  - inversion H; subst. split; [apply kl_nil; reflexivity|]. intros ci IN. exfalso. eapply runm_notin; [apply runm_dropitems | eauto].
+  - revert H. destruct idle; [destruct (idleq s) as [|c r] eqn:IQ|]; intros Q; inj_pairK Q; try (apply Qeq; reflexivity).
+    split; [auto|]. intros ci [E|[]] K. inversion E; subst c. exfalso. eapply (tagged_nokill QIdle (idleq s)); [apply QT | rewrite IQ; left; reflexivity | exact K].
+  - revert H. destruct (t >? now (set_mainq s [])).
+    + destruct (fire t _) as [fired s2] eqn:FI. unfold fire in FI. injection FI as ? ?; subst. intros Q; inj_pairK Q.
+      split; [apply kl_nil; destruct (ambiguous _); reflexivity|]. intros ci IN K. rewrite <- (app_nil_r (map MRunItem _)) in IN.
+      apply runm_in in IN; [|reflexivity]. apply in_app_or in IN as [IN|IN]; [apply kl_in; auto|]. exfalso.
+      apply in_map_iff in IN as (ti & E & IT). apply ti_sort_in in IT.
+      eapply (tagged_nokill QTimer (map ti_ci (timers s))); [apply QT | | exact K]. apply in_map_iff. exists ti. split; auto.
+      eapply (proj1 (filter_In _ _ _)). exact IT.
+    + intros Q; inj_pairK Q. split; [apply kl_nil; reflexivity|]. intros ci IN K. rewrite <- (app_nil_r (map MRunItem _)) in IN.
+      apply runm_in in IN; [|reflexivity]. apply kl_in; auto.
+  - revert H. destruct (mainq s) as [|c0 r0] eqn:MQ.
+    + destruct (lazyq s) as [|c1 r1] eqn:LQ.
+      * intros Q; inj_pairK Q. apply Qeq; [destruct (t >? recreate s); reflexivity | reflexivity].
+      * intros Q; inj_pairK Q. split; [auto|]. intros ci IN K. apply (runm_in (c1 :: r1)) in IN; [|reflexivity]. exfalso.
+        eapply (tagged_nokill QLazy (lazyq s)); [apply QT | rewrite LQ; exact IN | exact K].
+    + intros Q; inj_pairK Q. split; [apply kl_nil; reflexivity|]. intros ci IN K. apply (runm_in (c0 :: r0)) in IN; [|reflexivity]. apply kl_in; [rewrite MQ; exact IN | exact K].
+  - revert H. destruct (i >=? TEARDOWN_ROUNDS).
+    + intros Q; inj_pairK Q. apply Qeq; [destruct (is_nil (mainq s)); reflexivity | reflexivity].
+    + destruct (mainq s) as [|c0 r0] eqn:MQ; intros Q; inj_pairK Q; [apply Qeq; reflexivity|].
+      split; [apply kl_nil; reflexivity|]. intros ci IN. exfalso. eapply runm_notin; [|exact IN]. cbn [existsb is_runm orb]. rewrite runm_app, runm_dropitems. reflexivity.
+  - revert H. cbv zeta. destruct (ambiguous (timers s)); intros Q; inj_pairK Q; (apply Qeq; [reflexivity | rewrite runm_app, runm_dropitems; reflexivity]).
+  - inversion H; subst. apply Qeq; [destruct (is_nil (mainq s)); reflexivity | reflexivity].
+  - revert H. destruct (amin (env s)) as [[h v]|]; intros Q; inj_pairK Q; apply Qeq; reflexivity.
+  - inversion H; subst. apply Qeq; reflexivity.
+  - inversion H; subst. apply Qeq; [|reflexivity]. unfold kl. cbn [mainq set_tr]. rewrite mainq_class_flags. reflexivity.
+Qed.
